@@ -4,7 +4,7 @@ SPEC = dict(
     rule="corpus (identical in all runs): (1) long constructs — plain / double / single-quoted scalars and keys, flow items, indentation runs, block scalars, "
          "anchor and alias names, comments — of EVERY length 0..=72 (thorough 100) x 10/8/6 window bytes x LF/CRLF/CR x with/without 40 bytes of following text; "
          "(2) every token string of length <= 3 (thorough 4) over 23 YAML tokens, alone and followed by a 44-byte line; (3) the Y(2) documents of the C14 space "
-         "(every style, LF/CRLF/CR) + comment space + 1/8 of the anchor space under a leading comment of p bytes (quick 3 values, thorough 17 values around "
+         "(every style, LF/CRLF/CR) + comment space + 1/8 of the anchor space under a leading comment of p bytes (quick 2 values, thorough 17 values around "
          "16/32/48/64) and a trailing comment of 0/40 bytes. Kernel corpus: buffers of every length 0..=50 (100) with one of 14 special bytes or 10 two-byte "
          "windows at every position, break+indent shapes; every start; 9 ends; 7 indents. distinct = distinct digest tuples / (buffer, answers) pairs.",
     level_text="Every input of the corpus is indexed by the real code under each of the three kernel configurations in its own process; the Debug rendering of the "
